@@ -20,6 +20,8 @@ THEOREMS = {
         "MG.C13.reroute_spec",
         "MG.C13.restore_reroutes_back",
         "MG.C13.restore_inverts_duplicate",
+        "MG.C13.mkDupGraph_no_views",
+        "MG.C13.restore_inverts_mkDupGraph",
     ],
 }
 
@@ -239,8 +241,11 @@ MANIFEST = {
             "only), restore_reroutes_back shows routing through a fresh placeholder and back is the identity on "
             "every op's variables, and restore_inverts_duplicate concludes that DuplicatingGraph(x) followed by "
             "restore_old_graph leaves every pre-existing tensor (value, flag, base, creator, consumers, view "
-            "children), every buffer and every op's variable list unchanged (base tensor without live views; the "
-            "forest case is validated by correspondence). The model with failures is run against MyGrad; the "
+            "children), every buffer and every op's variable list unchanged; restore_inverts_mkDupGraph states "
+            "the same for the functions _in_place_op actually calls: mkDupGraph (which first discards x's "
+            "gradient) succeeds with a one-node graph (mkDupGraph_no_views) and DupGraph.restore of its result is "
+            "exactly the heap of x.null_grad() (tensor that owns its memory, no live views; the forest case is "
+            "validated by correspondence). The model with failures is run against MyGrad; the "
             "direct oracle snapshots all tensors around every failing statement, compares the final state and "
             "gradients with the program without the failing statements, and checks that no array stays locked.",
     "note": "Trusted: Lean kernel, standard axioms, correspondence harness. The target's own .grad is nulled before the attempt "
